@@ -48,11 +48,73 @@ MUTATIONS tried (scratch copies, VERIF_REPO; list with sed expressions in selfte
   detected after the -f / +f operation sequences were added (FilterList.tla): swap-remove of a cancelled filter entry
     reading the slot past the end (`FilterBytes[FilterCnt--]`), which only shows with -f a,b,c +f <non-last entry>.
   equivalent (exit 0, rightly): pbind copying in 16-byte pieces.
+
+EXTENSION (relocatable code files, ALINK) - checks/ext_alink.py, last phase of main()
+  Neither the manual nor a listed property defines the record types $82..$85 or what ALINK does (man/alink.1: "work in
+  progress", exit codes 0..3); the specification is written from fileformat.h and states its own declarative side.
+  spec/RelocFile.tla   the records $82 (data + symbols) $83 (relocatable) $84 (both) $85 (relocation info: patch entries
+                       addr:8 strpos:4 type:4, export entries strpos:4 flags:4 value:8, string table), the 32-bit relocation
+                       type word bit by bit (TypeBytes / TypeOfBytes, Simple types L8 L16 B16 L24 B24 L32 B32 L64 B64, SUB, PAGE),
+                       field arithmetic on byte lists (TLC integers are 32 bit), encoder REncode (layout of asmcode.c WrPatches,
+                       and a shared-string layout) / decoder RDecode (toolutils.c ReadRelocInfo), PListRelocRows.
+  spec/RelocWriter.tla asmcode.c NewRecord / WrPatches / WriteBytes / CloseFile with the patch and export queues, record by record
+                       (a record that carries queue entries when it is closed becomes $82/$84 and a $85 record follows), the
+                       statement level of code51.c (the ONLY code generator that emits relocations: MOV A,#x -> L8, MOV DPTR,#x /
+                       LJMP / LCALL -> B16), EXTERN_SYM / EXPORT_SYM / RSEG / ASEG, the pass loop; declarative Faithful = image
+                       unchanged + every relocation and every export exactly once + every patch inside the record it follows.
+                       NAMED DEVIATIONS (all reproduced on the real asl): tail_exports_lost (queue entries behind the last
+                       non-empty record never reach the file), export_queue_survives_pass (... and are written by the NEXT pass),
+                       merge_same_sign_cancels (asmrelocs.c MergeRelocs: ga+ga loses both relocations), split_patch_stray (64 KiB
+                       record split: the patch entry is attached to the record in front of its instruction).
+  spec/ALink.tla       operational: alink.c pass 1 ReadSymbols / GetExport (part list, double definitions), the placement loop of
+                       main (relocatable records one behind the other per segment from 0, relative exports and patch addresses
+                       moved), pass 2 ProcessFile (PartRun, "$$$", GetValue/PutValue by type, undefined symbols, record header
+                       form), one step per record; declarative Link_decl = symbol table of all export entries, double / undefined
+                       names are errors (exit 1, no target), otherwise the image of the inputs with every patched field replaced
+                       by field +/- sum of the symbol values (width, endianness, sign from the type).  NAMED DEVIATIONS of
+                       alink.c: plain_part_null, undef_part_stall, patch_outside_unchecked (all three: SIGSEGV / heap access,
+                       proposed_fixes/C07-alink-part-list.diff), dup_in_record_unnoticed, reloc_plain_passthrough.
+  (M) ALink_MC (cfgs ALink_MC*.cfg): every link set of bounded spaces (1..2(3) files x 1..2 records x <= 1(2) patches of 3 types x
+      <= 1(2) exports, absolute/relocatable, "$$$", relative exports): Conforms (operational model without deviations satisfies
+      Link_decl), StepRunAgrees, NoCrash, PrefixOK, Aligned, RoundTrip, OneForOne; five *_dev_* cfgs: with a deviation switched on
+      TLC must find it.  RelocWriter_MC: every program of <= 3 (4) statements over 14 statement kinds with the record limit
+      scaled to 4 bytes: WFaithful (faithful unless a named situation occurs), what each situation costs, ImageOK, RoundTrip;
+      *_dev_* cfgs (each situation is reachable; quick: one combined run).
+  (G) file level: ALink_MC!ListCases (162 hand-picked link sets: every type x add/sub x first/last offset x carries, unknown
+      types, several patches on one field, shared string tables, placement of relocatable records in two segments, double /
+      undefined names in every position, records without relocation info in every position, entry records, other CPU /
+      segment / granularity, malformed files) + the ALink_Cover spaces are printed by TLC as FILE BYTES with the expected
+      target bytes / exit code / diagnostics, Link_decl's records and the relocation rows PLIST must print; the harness writes
+      the files (cross-checked against the independent writer vlib/relocfile.py), runs the real alink and plist, compares the
+      target bytes, the image read by vlib.codefile and plist's rows.
+      source level: ALink_Gen families (73 link sets) + TLC-simulated link sets of 1..4 modules are printed as STATEMENT LISTS plus
+      the code files RelocWriter says asl must write; the harness renders MCS-51 source, assembles with the real asl (files compared
+      byte for byte up to the creator), links with the real alink, compares target bytes, the vlib.codefile image and the p2bin
+      image with Link_decl.  Thorough adds the link set at the real 65535-byte record limit.
+  (V) every differing run is handed to ALink_Trace as raw bytes (inputs = what alink really read); TLC decodes, evaluates
+      ALink!Verdict: definite / Linked / which set of named deviations explains the observation.
+  Verdicts: a run killed by a signal or the time limit is a VIOLATION (man/alink.1 exit codes; property C03 names alink) - known
+      entries in known_findings/C07-alink.json for the three crashing deviations; every other mismatch is SPEC-DRIFT, one line per
+      named deviation and one "UNEXPLAINED" line for what no deviation explains (VERIF_ALINK_STRICT=1 turns those into violations).
+  What works in this tree (the rest is "feature incomplete", see report): EXTERN_SYM/EXPORT_SYM/RSEG/ASEG exist only as these
+      undocumented names; only MCS-51 instructions emit patches (DB/DW of an external symbol silently assemble 0; `-` drops the
+      relocations of both operands); relocatable segments link correctly only as ONE record per segment assembled at origin 0
+      with RSEG in front of CPU ("$$$" = new start of the record carrying the patch); ALINK handles L8 L16 B16 L32 B32 L64 B64 (no
+      24-bit, no ACALL/AJMP page types: exit 3).
+  Bounds: addresses/values < 2^24, <= 4 modules, <= 8 patches per record, granularity 1 (patch addresses count bytes only then).
+  NOT covered: -v output ("(u Bytes)": same missing '%' as plist had), ALINKCMD, wildcards, several segments on the source level,
+      80C251/80C390 (24-bit types), PAGE semantics, entry records (ALINK drops them: modelled, not judged).
+  MUTATIONS tried (extension only, scratch copies; default: SPEC-DRIFT UNEXPLAINED, exit 0; VERIF_ALINK_STRICT=1: exit 1):
+      alink.c PutValue B16 written little-endian (266 cases); relative exports not moved with their record (15); DoubleErr only for
+      the first export of a record (1); asmcode.c record with exports only keeps type $81 (223 files); asmrelocs.c TransferRelocs2
+      SUB flag on all but the last patch of a field (226 files); toolutils.c ReadRelocInfo export name off by one (114 link sets,
+      5 plist listings, and 2 VIOLATIONs in default mode: alink killed, explained by no deviation).
 """
 import json
 import os
 import re
 
+from checks import ext_alink
 from vlib import aslrun, build, tlc, utilrun
 from vlib.common import CheckError, Phase, log, pmap, rng, scratch
 from vlib.report import Report
@@ -382,6 +444,7 @@ def main(tier):
         pending.append((tag, c, job, plist_obs(res)))
     rep.traces(len(lj))
     judge(rep, tier, "PList_Trace", pending, "plist", _d_plist, bld, plist_obs)
+    ext_alink.run(rep, bld, tier)          # EXTENSION: relocatable code files and ALINK (checks/ext_alink.py)
     return rep.finish(
         rule="cases = every case of the TLC cover spaces (PBind_Cover*.cfg, PList_Cover.cfg, PList_Fam.cfg) + "
              "TLC-simulated wide cases + code files of the golden tests (pbind: seed-chosen groups of 1..4 files and -f "
